@@ -260,7 +260,7 @@ def check_relocation(ctx, pfx, got, grid, border, border_rows=(), TOL=TOL, BAND=
         must_be_identical[i] = True
 
     # (1) bit-identity classes
-    same = (g == grid).all(axis=1)
+    same = (g == grid).all(axis=1) & (np.signbit(g) == np.signbit(grid)).all(axis=1)      # bit-for-bit: -0.0 stays -0.0
     for i in np.flatnonzero(must_be_identical & ~same)[:1]:
         if int(i) in brows:
             key = "/border-point-changed"
@@ -450,7 +450,7 @@ def kernel_case(draw):
     npts = draw(st.integers(1, 24))
     pts = []
     for _ in range(npts):
-        pk = draw(st.sampled_from(["ray", "ray", "ray", "copy", "free", "near-centre", "between"]))
+        pk = draw(st.sampled_from(["ray", "ray", "ray", "copy", "free", "near-centre", "between", "negzero"]))
         if pk == "ray":
             f = draw(st.one_of(st.floats(0.0, 4.0), st.sampled_from([0.5, 1.0, 1.5, 2.0, 10.0, 100.0])))
             pts.append({"k": "ray", "b": draw(st.integers(0, nb - 1)), "f": f})
@@ -458,6 +458,8 @@ def kernel_case(draw):
             pts.append({"k": "copy", "b": draw(st.integers(0, nb - 1))})
         elif pk == "free":
             pts.append({"k": "free", "p": [cy + draw(gens.reals(-15, 15)), cx + draw(gens.reals(-15, 15))]})
+        elif pk == "negzero":
+            pts.append({"k": "negzero", "axis": draw(st.integers(0, 1)), "o": draw(gens.reals(-3, 3))})
         elif pk == "near-centre":
             pts.append({"k": "centre", "p": [draw(gens.reals(-0.3, 0.3)), draw(gens.reals(-0.3, 0.3))]})
         else:
@@ -480,6 +482,10 @@ def _kernel_points(case):
             out.append(np.asarray(p["p"], dtype=float))
         elif p["k"] == "centre":
             out.append(c + np.asarray(p["p"], dtype=float))
+        elif p["k"] == "negzero":                     # one component exactly -0.0 (the sign bit is part of "bit-for-bit")
+            q = np.array([c[0] + p["o"], c[1] + 0.5 * p["o"]])
+            q[p["axis"]] = -0.0
+            out.append(q)
         else:
             mid = 0.5 * (border[p["b"]] + border[p["b2"]])
             out.append(c + p["f"] * (mid - c))
